@@ -76,9 +76,9 @@ type Sys struct {
 	wrap     func(corestore.KVStoreWithBatch) corestore.KVStoreWithBatch
 	fastNow  bool // fast setting of the current open (may be overridden per reopen)
 	hooks    *hooks
-	pending  [][]string // successful uncommitted writes since the last clean point
-	ivDone   bool       // IvLate: SetInitialVersion has been called
-	ivWrites int        // IvLate: writes before that
+	pending  [][]string     // successful uncommitted writes since the last clean point
+	ivDone   bool           // IvLate: SetInitialVersion has been called
+	ivWrites int            // IvLate: writes before that
 	cstats   map[string]int // statistics of the cache audits
 }
 
